@@ -20,6 +20,16 @@ a real MetaData and
 3. ``sorted_tables`` lists the referenced table first for every dependency of a
    table that is not part of a cycle, and warns exactly when there is a cycle.
 
+Declaration histories (layer "hist"): the same three oracles are applied to
+MetaData objects whose final FK graph (<= 3 tables) was *reached* differently:
+FK targets given as "table.column" strings or as Column objects, tables
+declared in every order (referencing before referenced, resolved late),
+``metadata.remove(t)`` followed by re-declaration of a referred table, and FKs
+added only after a first ``sorted_tables`` / ``create_all``+``drop_all`` call
+through ``Table(..., extend_existing=True)`` (new column or new constraint),
+``Table.append_constraint`` or ``Column.append_foreign_key`` - every history
+within a bounded number of deviations from the plain up-front declaration.
+
 Mutations caught: (each in a private copy of lib/, quick tier, each gave new VIOLATION signatures)
   * sql/ddl.py sort_tables_and_constraints: dependency edge reversed ``(table, dependent_on)``
     -> sorted_tables-order, create-rejected:referenced-table-missing, sqlite insert order;
@@ -37,6 +47,13 @@ Mutations caught: (each in a private copy of lib/, quick tier, each gave new VIO
   * final list: ``table.foreign_key_constraints`` without ``.difference(remaining_fkcs)`` (inline *and* ALTER)
     -> create-rejected:referenced-table-missing;
   * the (None, constraints) entry emitted before the last table -> create-rejected:alter-table-missing.
+  * sql/schema.py ForeignKey._set_remote_table returning early when the FK already has a resolved column
+    (child keeps pointing at the removed Table) -> sorted_tables-order / create-rejected | history: remove+redeclare;
+  * Table.foreign_key_constraints memoized on first use -> sorted_tables-order / create-rejected | history:
+    sorted_tables (or create_all+drop_all); then FK via ext_col;
+  * MetaData._remove_table also purging the memos of FKs pointing *at* the removed table -> same, remove+redeclare;
+  * Column.append_foreign_key dropping the FK from table.foreign_keys -> ... | history: FK via append_fk;
+  (equivalent, not caught: the memo keyed by len(table.constraints) - every way of adding an FK adds a constraint).
   Not caught, by design: compiler.create_table_constraints ignoring use_alter - create_all never relies on it
   (it passes include_foreign_key_constraints), only Table.create() does, which is outside this property.
 """
@@ -82,12 +99,15 @@ META = dict(
     "routes (sorted_tables, catalog model, catalog model with checkfirst from every closed pre-state, SQLite); "
     "non-trivial = at least one FK between two different tables (an ordering constraint exists)",
     assumptions=[
+        "history layer: single-column named FKs, <= 3 tables, <= 3 FKs; a re-declared table is re-declared identically",
         "FK targets are the primary key or a UNIQUE pair of the referred table",
         "the pre-existing part of a database is FK-closed (was itself created by create_all)",
     ],
     bounds=dict(
-        quick="<=3 tables: all edge sets x <=2 attribute deviations (+ parallel pairs, + unnamed use_alter); 1-2 tables full product",
-        thorough="3 tables: full product over {none, named, unnamed, use_alter} per pair (4^9) + parallel pairs with <=3 other edges + second column rule; 4 tables: all 3044 isomorphism classes x (<=1 edge unnamed/use_alter, or exactly 2 edges unnamed)",
+        quick="<=3 tables: all edge sets x <=2 attribute deviations (+ parallel pairs, + unnamed use_alter); 1-2 tables full product; "
+        "declaration histories: 2 tables <=2 FKs x <=3 history deviations, 3 tables <=2 FKs x <=2 history deviations",
+        thorough="3 tables: full product over {none, named, unnamed, use_alter} per pair (4^9) + parallel pairs with <=3 other edges + second column rule; 4 tables: all 3044 isomorphism classes x (<=1 edge unnamed/use_alter, or exactly 2 edges unnamed); "
+        "declaration histories: 2 tables <=3 FKs x <=4 deviations, 3 tables <=2 FKs x <=3, 3 tables 3 FKs x <=2",
     ),
 )
 
@@ -614,7 +634,9 @@ TIER_LAYERS = dict(
 
 
 def shards(tier, seed):
-    return [(name, p, parts) for name, parts in TIER_LAYERS[tier] for p in range(parts)]
+    out = [(name, p, parts) for name, parts in TIER_LAYERS[tier] for p in range(parts)]
+    out += [("hist", p, HIST_PARTS[tier]) for p in range(HIST_PARTS[tier])]
+    return out
 
 
 def routes_for(routes, fks, kmax, qmax=9):
@@ -722,8 +744,278 @@ def fmt_fks(fks):
     )
 
 
+# ------------------------------------------------------------ declaration histories
+# The same final FK graph can be *reached* in many ways.  A history is
+#   style   'col' = FK target given as the Column object when the referred table is already declared (string
+#                   otherwise, i.e. resolved late), 'str' = always the "table.column" string
+#   order   the order in which the tables are declared (every permutation)
+#   redecl  None | r : after everything is declared, metadata.remove(t<r>) and t<r> is declared again (FKs of other
+#                   tables into t<r> are then necessarily strings: they must re-resolve to the new Table)
+#   when    per FK: 'early' (in the Table() call) or added after the observation by one of
+#                   'ext_col'  Table(name, md, Column(.., ForeignKey(..)), extend_existing=True)   (new column)
+#                   'ext_fkc'  Table(name, md, ForeignKeyConstraint(..), extend_existing=True)
+#                   'append_constraint'  table.append_constraint(ForeignKeyConstraint(..))
+#                   'append_fk'          table.c.col.append_foreign_key(ForeignKey(..))
+#   obs     what was called between the first declarations and the changes: 'none' | 'sorted' (sorted_tables) |
+#           'ddl' (create_all + drop_all on the route's backend)
+# t0 references t1 etc.: the referencing table sorts alphabetically before the referenced one whenever src < dst, and
+# sorted_tables / topological ties are broken by name / declaration order, so a lost edge shows.
+
+LATE = ("ext_col", "ext_fkc", "append_constraint", "append_fk")
+BASE_HIST = dict(style="col", order=None, redecl=None, when=None, obs="none")
+
+
+def hist_fks_final(fks, when):
+    """the FK list in the order in which the columns end up in the tables: early, pre-declared late, ext_col"""
+    rank = {"early": 0, "ext_fkc": 1, "append_constraint": 1, "append_fk": 1, "ext_col": 2}
+    idx = sorted(range(len(fks)), key=lambda i: (rank[when[i]], i))
+    return tuple(fks[i] for i in idx), tuple(when[i] for i in idx)
+
+
+def build_hist(n, fks, hist, observe):
+    """-> (MetaData, [tables], problems) following the history; ``observe(md)`` performs the 'ddl' observation"""
+    fks, when = hist_fks_final(fks, hist["when"])
+    style, redecl = hist["style"], hist["redecl"]
+    md = MetaData()
+    problems = []
+
+    def target(f, own_id=None):
+        src, dst = f[0], f[1]
+        name = "t%d" % dst
+        as_string = style == "str" or (redecl == dst and src != dst)
+        if not as_string:
+            if src == dst and own_id is not None:
+                return own_id
+            if name in md.tables:
+                return md.tables[name].c.id
+        return "t%d.id" % dst
+
+    def declare(i):
+        idc = Column("id", Integer, primary_key=True)
+        args = [idc, Column("u1", Integer), Column("u2", Integer)]
+        cons = [UniqueConstraint("u1", "u2")]
+        for f, w in zip(fks, when):
+            if f[0] != i or w == "ext_col":
+                continue
+            col = "s%d" % f[1]
+            if w != "early":
+                args.append(Column(col, Integer))
+            elif (f[0] + f[1]) % 2 == 0:
+                args.append(Column(col, Integer, ForeignKey(target(f, idc), name=fk_name(f))))
+            else:
+                args.append(Column(col, Integer))
+                cons.append(ForeignKeyConstraint([col], [target(f, idc)], name=fk_name(f)))
+        t = Table("t%d" % i, md, *(args + cons))
+        Index("ix_t%d" % i, t.c.u2)
+
+    for i in hist["order"]:
+        declare(i)
+    obs = hist["obs"]
+    try:
+        if obs == "sorted":
+            with warnings.catch_warnings():
+                warnings.simplefilter("ignore")
+                md.sorted_tables
+        elif obs == "ddl":
+            with warnings.catch_warnings():
+                warnings.simplefilter("ignore")
+                observe(md)
+    except (exc.SQLAlchemyError, cat.Reject) as e:
+        problems.append(("history-observation-failed", "%s: %s" % (type(e).__name__, str(e)[:200])))
+    if redecl is not None:
+        md.remove(md.tables["t%d" % redecl])
+        declare(redecl)
+    for f, w in zip(fks, when):
+        if w == "early":
+            continue
+        t = md.tables["t%d" % f[0]]
+        col = "s%d" % f[1]
+        if w == "ext_col":
+            Table(t.name, md, Column(col, Integer, ForeignKey(target(f, t.c.id), name=fk_name(f))), extend_existing=True)
+        elif w == "ext_fkc":
+            Table(t.name, md, ForeignKeyConstraint([col], [target(f, t.c.id)], name=fk_name(f)), extend_existing=True)
+        elif w == "append_constraint":
+            t.append_constraint(ForeignKeyConstraint([col], [target(f, t.c.id)], name=fk_name(f)))
+        else:
+            t.c[col].append_foreign_key(ForeignKey(target(f, t.c.id), name=fk_name(f)))
+    return md, [md.tables["t%d" % i] for i in range(n)], fks, problems
+
+
+def _observe_catalog(md):
+    conn = cat.CatalogConnection()
+    md.create_all(conn, checkfirst=False)
+    md.drop_all(conn, checkfirst=False)
+
+
+def _observe_sqlite(md):
+    c = _sqlite_conn()
+    md.create_all(c)
+    md.drop_all(c)
+    c.commit()
+
+
+def check_hist_case(n, fks, hist, routes="spq", fresh=False):
+    out, stats = [], {}
+    fks = tuple(tuple(f) for f in fks)
+    hist = dict(hist, order=tuple(hist["order"]), when=tuple(hist["when"]))
+    if "s" in routes or "p" in routes:
+        md, tabs, ffks, problems = build_hist(n, fks, hist, _observe_catalog)
+        out.extend(problems)
+        if "s" in routes:
+            sorted_route(md, tabs, n, ffks, out, stats)
+        if "p" in routes:
+            pg_route(md, tabs, n, ffks, (), False, out, stats)
+    if "q" in routes:
+        if fresh:
+            _sqlite_conn(True)
+        md2, tabs2, ffks, problems = build_hist(n, fks, hist, _observe_sqlite)
+        out.extend(("sqlite-" + k, d) for k, d in problems)
+        sqlite_route(md2, tabs2, n, ffks, False, out, stats, False)
+        sqlite_route(md2, tabs2, n, ffks, True, out, stats, False)
+    return out, stats
+
+
+def hist_graphs(n, min_edges, max_edges):
+    pairs = [(a, b) for a in range(n) for b in range(n)]
+    for k in range(min_edges, max_edges + 1):
+        for es in itertools.combinations(pairs, k):
+            yield tuple((a, b, "s", 1, 0) for a, b in es)
+
+
+def hist_deviations(n, fks, maxdev):
+    """every history within <= maxdev deviations of the base history (Column targets, tables declared t0..tn-1,
+    nothing removed, every FK in the Table() call, nothing observed); a re-declaration or an observation alone is a
+    deviation, each late FK is one, a different declaration order is one, string targets are one"""
+    e = len(fks)
+    ident = tuple(range(n))
+    feats = [("style", ["str"]), ("order", [pm for pm in itertools.permutations(range(n)) if pm != ident])]
+    feats.append(("redecl", list(range(n))))
+    for i in range(e):
+        feats.append(("when%d" % i, list(LATE)))
+    feats.append(("obs", ["sorted", "ddl"]))
+    for k in range(maxdev + 1):
+        for chosen in itertools.combinations(range(len(feats)), k):
+            for vals in itertools.product(*[feats[c][1] for c in chosen]):
+                h = dict(style="col", order=ident, redecl=None, when=["early"] * e, obs="none")
+                for c, v in zip(chosen, vals):
+                    name = feats[c][0]
+                    if name.startswith("when"):
+                        h["when"][int(name[4:])] = v
+                    else:
+                        h[name] = v
+                h["when"] = tuple(h["when"])
+                yield k, h
+
+
+def fmt_hist(h):
+    parts = []
+    if h["style"] != "col":
+        parts.append("string targets")
+    if tuple(h["order"]) != tuple(sorted(h["order"])):
+        parts.append("declared " + ",".join("t%d" % i for i in h["order"]))
+    if h["obs"] != "none":
+        parts.append("then " + {"sorted": "sorted_tables", "ddl": "create_all+drop_all"}[h["obs"]])
+    if h["redecl"] is not None:
+        parts.append("then remove+redeclare t%d" % h["redecl"])
+    late = [(i, w) for i, w in enumerate(h["when"]) if w != "early"]
+    for i, w in late:
+        parts.append("then FK#%d via %s" % (i, w))
+    return "; ".join(parts) or "plain declaration"
+
+
+def minimise_hist(n, fks, hist, routes, kind):
+    """greedy: drop FKs, then put history features back to the base value, while ``kind`` persists"""
+    fks, hist = list(fks), dict(hist, when=list(hist["when"]))
+
+    def fails(f, h):
+        _BUDGET[0] -= 1
+        if _BUDGET[0] < 0:
+            return False
+        return kind in {k for k, _ in check_hist_case(n, f, h, routes, fresh=True)[0]}
+
+    changed = True
+    while changed:
+        changed = False
+        for i in range(len(fks)):
+            f2 = fks[:i] + fks[i + 1 :]
+            h2 = dict(hist, when=hist["when"][:i] + hist["when"][i + 1 :])
+            if f2 and fails(f2, h2):
+                fks, hist, changed = f2, h2, True
+                break
+        if changed:
+            continue
+        base = dict(style="col", order=tuple(range(n)), redecl=None, obs="none")
+        for name, bv in base.items():
+            if hist[name] != bv and fails(fks, dict(hist, **{name: bv})):
+                hist = dict(hist, **{name: bv})
+                changed = True
+                break
+        if changed:
+            continue
+        for i, w in enumerate(hist["when"]):
+            if w != "early":
+                for w2 in ("early",) + LATE[: LATE.index(w)]:
+                    h2 = dict(hist, when=hist["when"][:i] + [w2] + hist["when"][i + 1 :])
+                    if fails(fks, h2):
+                        hist, changed = h2, True
+                        break
+            if changed:
+                break
+    return fks, dict(hist, when=tuple(hist["when"]), order=tuple(hist["order"]))
+
+
+HIST_TIERS = dict(
+    # (n, min edges, max edges, max history deviations)
+    quick=[(2, 1, 2, 3), (3, 1, 2, 2)],
+    thorough=[(2, 1, 3, 4), (3, 1, 2, 3), (3, 3, 3, 2)],
+)
+HIST_PARTS = dict(quick=16, thorough=64)
+
+
+def run_hist_shard(shard, tier, rec):
+    _, p, parts = shard
+    reported = {}
+    _BUDGET[0] = 2000
+    idx = 0
+    seen = set()
+    for n, min_edges, max_edges, maxdev in HIST_TIERS[tier]:
+        for fks in hist_graphs(n, min_edges, max_edges):
+            idx += 1
+            if idx % parts != p:
+                continue
+            for k, h in hist_deviations(n, fks, maxdev):
+                if h["redecl"] is not None and not any(f[1] == h["redecl"] or f[0] == h["redecl"] for f in fks):
+                    continue  # removing a table no FK touches changes nothing but the declaration order
+                key = (n, fks, h["style"], h["order"], h["redecl"], h["when"], h["obs"])
+                if key in seen:
+                    continue
+                seen.add(key)
+                res, stats = check_hist_case(n, fks, h)
+                nontriv = k > 0 and any(f[0] != f[1] for f in fks)
+                rec.case(key, nontrivial=nontriv)
+                rec.count("cases_history")
+                rec.count("history_with_redeclare", 1 if h["redecl"] is not None else 0)
+                rec.count("history_with_late_fk", 1 if any(w != "early" for w in h["when"]) else 0)
+                rec.outcome(("hist", stats.get("sorted"), stats.get("create"), tuple(stats.get("drop", ())), stats.get("sqlite")))
+                if nontriv and k >= 2 and len(rec.samples) < 3 and (h["redecl"] is not None or h["obs"] != "none"):
+                    rec.sample(dict(n=n, fks=fmt_fks(fks), history=fmt_hist(h), sorted_tables=stats.get("sorted")))
+                for kind, detail in res:
+                    if reported.get(kind, 0) >= 2 or len(rec.violations) >= 8:
+                        rec.count("violating_cases")
+                        continue
+                    reported[kind] = reported.get(kind, 0) + 1
+                    mf, mh = minimise_hist(n, fks, h, "spq", kind)
+                    rec.violation(
+                        "%s: %d table(s) %s | history: %s" % (kind, n, fmt_fks(mf), fmt_hist(mh)),
+                        "minimised from %s | %s\n%s" % (fmt_fks(fks), fmt_hist(h), detail),
+                        dict(layer="hist", n=n, fks=[list(f) for f in mf], hist=dict(mh, order=list(mh["order"]), when=list(mh["when"])), routes="spq", kind=kind),
+                    )
+
+
 def run_shard(shard, tier, rec):
     name, p, parts = shard
+    if name == "hist":
+        return run_hist_shard(shard, tier, rec)
     n, routes0, gen, kmax, qmax = LAYERS[name]
     rule = RULE.get(name, 0)
     reported = {}
@@ -756,6 +1048,10 @@ def run_shard(shard, tier, rec):
 
 
 def replay(case):
+    if case.get("layer") == "hist":
+        res, _ = check_hist_case(case["n"], [tuple(f) for f in case["fks"]], case["hist"], case["routes"], fresh=True)
+        fks = [tuple(f) for f in case["fks"]]
+        return [("%s: %d table(s) %s | history: %s" % (k, case["n"], fmt_fks(fks), fmt_hist(case["hist"])), d) for k, d in res]
     res, _ = check_case(case["n"], [tuple(f) for f in case["fks"]], case["routes"], fresh=True)
     fks = sorted(tuple(f) for f in case["fks"])
     return [("%s: %d table(s) %s" % (k, case["n"], fmt_fks(fks)), d) for k, d in res]
